@@ -2,6 +2,7 @@ import DW.Render
 import DW.Sexp
 import DW.Message
 import DW.Probe
+import DW.Stage1
 
 /-!
 # Driver: one request per line on stdin, one answer per line on stdout
@@ -34,8 +35,32 @@ def handleSpec (line : String) : String :=
     | _ => "bad-request"
   | _ => "bad-request"
 
+def dSeg : Sexp → Option Seg
+  | .list [.atom "a", d, t] => do some (.attr (← dBool d) (← dToks t))
+  | .list [.atom "s", t] => do some (.toks (← dToks t))
+  | _ => none
+
+/-- `stage1 <cfg> <item> ## <segments>` -/
+def handleStage1 (line : String) : String :=
+  match line.splitOn " ## " with
+  | [head, segs] =>
+    match head.splitOn " " with
+    | _ :: cfg :: rest =>
+      match dCfg cfg, Sexp.parse (" ".intercalate rest), Sexp.parse segs with
+      | some c, some sx, some (.list ss) =>
+        match dItem sx, ss.mapM dSeg with
+        | some raw, some segs =>
+          match stage1 raw segs with
+          | .forward t => "ok " ++ joinToks t
+          | .failed e item => "err " ++ e.message c ++ " @@ " ++ joinToks item
+        | _, _ => "bad-item"
+      | _, _, _ => "bad-request"
+    | _ => "bad-request"
+  | _ => "bad-request"
+
 def handle (line : String) : String :=
   if line.startsWith "specq " then handleSpec line else
+  if line.startsWith "stage1 " then handleStage1 line else
   match line.splitOn " " with
   | cmd :: cfg :: rest =>
     match dCfg cfg, Sexp.parse (" ".intercalate rest) with
